@@ -201,8 +201,8 @@ def markets(tier, seed):
 
 # unbounded lemmas about one trade / one liquidity operation, for any reserves and amounts (Apalache, spec/ind/PoolsInd.tla)
 POOL_LEMMAS = [("NextSell", "TradeKeepsProduct"), ("NextBuy", "TradeKeepsProduct"), ("NextBuy", "BuyPaysBurn"), ("NextRemove", "RemoveAtMostShare"), ("NextAdd", "AddAtMostShare")]
-MC["markets"] = {"quick": [("MCPools", "mc/MCPools_q.cfg"), ("PoolsInd", "ind/PoolsInd.tla", {"apalache": POOL_LEMMAS})],
-                 "thorough": [("MCPools", "mc/MCPools.cfg"), ("PoolsInd", "ind/PoolsInd.tla", {"apalache": POOL_LEMMAS})]}
+MC["markets"] = {"quick": [("MCPools", "mc/MCPools_q.cfg"), ("PoolsInd", "ind/PoolsInd.tla", {"apalache": POOL_LEMMAS, "equiv": "PoolOpsEq"})],
+                 "thorough": [("MCPools", "mc/MCPools.cfg"), ("PoolsInd", "ind/PoolsInd.tla", {"apalache": POOL_LEMMAS, "equiv": "PoolOpsEq"})]}
 
 
 def statesync(tier, seed):
